@@ -2,6 +2,7 @@ package main
 
 import (
 	"fmt"
+	"go/types"
 	"strings"
 
 	"golang.org/x/tools/go/ssa"
@@ -35,11 +36,11 @@ func runC12(c *Ctx, r *Report) {
 	c01R4(c, r, "C12.R15")                           // later matchers see the stream behind the header: what is prefetched on the wrapped connection is kept in storage of its own (not in the pooled chunk that the next prefetch overwrites)
 	c12Placeholders(c, r, "C12.R16")
 	c12HeaderExamined(c, r, "C12.R17")
-	c02Router(c, r, "C12.R11")                       // routes after the handler are decided on the connection it handed on: verdicts taken on the raw connection before the header was stripped are asked again
+	c02Router(c, r, "C12.R11") // routes after the handler are decided on the connection it handed on: verdicts taken on the raw connection before the header was stripped are asked again
 }
 
 func c12R1(c *Ctx, r *Report, rule string) {
-	r.rule(rule, "proxy_protocol Handle over (newConn nil / conn) x (ProxyHeader ok / error): nil -> next.Handle(cx) only; error -> returned, next not called, nothing published; ok -> SetVar(<key GetConn reads>, conn) then next.Handle(cx.Wrap(conn))", 3)
+	r.rule(rule, "proxy_protocol Handle over (newConn nil / conn) x (ProxyHeader ok / error): nil -> next.Handle(cx) only; error -> returned, next not called, nothing published; ok -> SetVar(<key GetConn reads>, conn) then next.Handle(cx.Wrap(conn)); ok with a version 1 header that declares no addresses (PROXY UNKNOWN) -> next gets a connection that reads through conn and answers RemoteAddr()/LocalAddr() with those of cx", 4)
 	fnName := "modules/l4proxyprotocol.(*Handler).Handle"
 	fn := c.Fn(fnName)
 	if fn == nil {
@@ -79,8 +80,35 @@ func c12R1(c *Ctx, r *Report, rule string) {
 		case callee == "modules/l4proxyprotocol.(*Handler).newConn":
 			return []CallAlt{{Ret: symNil(), Note: "untrusted"}, {Ret: symRef("ppconn", false), Note: "conn"}}
 		case strings.HasSuffix(callee, "proxyprotocol.Conn).ProxyHeader"):
+			// a version 1 header with addresses, a version 1 header without ("PROXY UNKNOWN": the library hands
+			// out a zero HeaderV1), a version 2 header
+			mk := func(desc, dyn string, withAddrs bool) SV {
+				h := SV{K: "ref", Known: true, Desc: desc, Dyn: dyn}
+				// the dynamic type as a type, so that a checked assertion (v, ok := hdr.(*HeaderV1)) is decided
+				for _, pk := range c.Prog.AllPackages() {
+					if pk.Pkg.Path() == "github.com/mastercactapus/proxyprotocol" {
+						if tn, ok := pk.Members[strings.TrimPrefix(dyn, "*github.com/mastercactapus/proxyprotocol.")].(*ssa.Type); ok {
+							h.DynT = types.NewPointer(tn.Type())
+						}
+					}
+				}
+				if strings.HasSuffix(dyn, "HeaderV1") {
+					if withAddrs {
+						four := symInt(4)
+						st.heap[desc+".SrcIP"] = SV{K: "slice", Known: true, Desc: desc + ".src", Len: &four}
+						st.heap[desc+".DestIP"] = SV{K: "slice", Known: true, Desc: desc + ".dst", Len: &four}
+					} else {
+						st.heap[desc+".SrcIP"] = symNil()
+						st.heap[desc+".DestIP"] = symNil()
+					}
+				}
+				return h
+			}
+			const v1, v2 = "*github.com/mastercactapus/proxyprotocol.HeaderV1", "*github.com/mastercactapus/proxyprotocol.HeaderV2"
 			return []CallAlt{
-				{Ret: SV{K: "tuple", Desc: "t", Elems: []SV{symRef("hdr", false), symNil()}}, Note: "ok"},
+				{Ret: SV{K: "tuple", Desc: "t", Elems: []SV{mk("hdr1", v1, true), symNil()}}, Note: "ok"},
+				{Ret: SV{K: "tuple", Desc: "t", Elems: []SV{mk("hdr1u", v1, false), symNil()}}, Note: "ok-unknown"},
+				{Ret: SV{K: "tuple", Desc: "t", Elems: []SV{mk("hdr2", v2, true), symNil()}}, Note: "ok"},
 				{Ret: SV{K: "tuple", Desc: "t", Elems: []SV{symNil(), {K: "ref", Known: true, Desc: "parseErr"}}}, Note: "error"},
 			}
 		}
@@ -123,6 +151,25 @@ func c12R1(c *Ctx, r *Report, rule string) {
 				bad = append(bad, "a header parse error must be returned without running the next handler: "+fmtTrace(p))
 			}
 			seen["parse-error"] = append(seen["parse-error"], bad...)
+		case hdr == "ok-unknown":
+			// the header declares no addresses: the connection's own stay in force. The library's wrapper reports
+			// the empty address for such a header, so what is handed on must answer with the addresses of cx
+			if len(setvars) != 1 || setvars[0].Args[2] != "ppconn" {
+				bad = append(bad, "the parsed conn must be published on cx also for a header without addresses")
+			}
+			why := ""
+			switch {
+			case len(next) != 1:
+				why = fmt.Sprintf("next is called %d times", len(next))
+			case next[0] == "Wrap(cx,ppconn)":
+				why = "the next handler gets cx.Wrap(conn), the library's wrapper as it is"
+			default:
+				why = c12UnknownWrapper(c, p, next[0])
+			}
+			if why != "" {
+				bad = append(bad, "after a version 1 header without addresses ('PROXY UNKNOWN') "+why+": its RemoteAddr() and LocalAddr() are ':0' (HeaderV1{}.SrcAddr() is a non-nil empty address) instead of the connection's own - remote_ip and local_ip matchers behind the handler fail and the connection is dropped")
+			}
+			seen["accepted, no addresses"] = append(seen["accepted, no addresses"], bad...)
 		case hdr == "ok":
 			if len(setvars) != 1 || setvars[0].Args[1] != fmt.Sprintf("%q", getKey) || setvars[0].Args[2] != "ppconn" || setvars[0].Args[0] != "cx" {
 				bad = append(bad, fmt.Sprintf("the parsed conn must be published on cx under the key GetConn reads (%q)", getKey))
@@ -135,7 +182,7 @@ func c12R1(c *Ctx, r *Report, rule string) {
 			seen["other"] = append(seen["other"], "unclassified path: "+fmtTrace(p))
 		}
 	}
-	for _, k := range []string{"untrusted", "parse-error", "accepted"} {
+	for _, k := range []string{"untrusted", "parse-error", "accepted", "accepted, no addresses"} {
 		b, ok := seen[k]
 		r.check(ok && len(b) == 0, rule, fnName, k, c.pos(fn.Pos()), "as specified", strings.Join(dedup(b), "\n")+map[bool]string{true: "", false: "case not reached"}[ok])
 	}
@@ -399,4 +446,92 @@ func c12R7(c *Ctx, r *Report, rule string) {
 		}
 		r.check(len(problems) == 0, rule, fnName, sc.Name, c.pos(fn.Pos()), fmt.Sprintf("%d paths", len(paths)), strings.Join(dedup(problems), "\n"))
 	}
+}
+
+// c12UnknownWrapper judges what the handler hands on after a header without addresses: Wrap(cx, W) where W is a value
+// of a type of the module that reads through the library's wrapper (its embedded connection is conn) and whose own
+// RemoteAddr and LocalAddr return the addresses of cx.
+func c12UnknownWrapper(c *Ctx, p Path, next string) string {
+	if !strings.HasPrefix(next, "Wrap(cx,") {
+		return "the next handler gets " + next
+	}
+	w := strings.TrimSuffix(strings.TrimPrefix(next, "Wrap(cx,"), ")")
+	readsThrough, under := false, ""
+	for k, v := range p.Heap {
+		if !strings.HasPrefix(k, w+".") {
+			continue
+		}
+		if v.Desc == "ppconn" {
+			readsThrough = true
+		}
+		if v.Desc == "cx" {
+			under = strings.TrimPrefix(k, w+".")
+		}
+	}
+	if !readsThrough {
+		return "the connection handed on (" + w + ") does not read through the parsed connection"
+	}
+	if under == "" {
+		return "the connection handed on does not know the connection below"
+	}
+	// the module's type with a field `under` of its own and RemoteAddr/LocalAddr defined on it
+	pkg := c.SSA[modPath+"/modules/l4proxyprotocol"]
+	if pkg == nil {
+		return "package not found"
+	}
+	for _, mem := range pkg.Members {
+		t, ok := mem.(*ssa.Type)
+		if !ok {
+			continue
+		}
+		st, ok := t.Type().Underlying().(*types.Struct)
+		if !ok {
+			continue
+		}
+		has := false
+		for i := 0; i < st.NumFields(); i++ {
+			if st.Field(i).Name() == under {
+				has = true
+			}
+		}
+		if !has {
+			continue
+		}
+		okMethods := 0
+		for _, name := range []string{"RemoteAddr", "LocalAddr"} {
+			for _, recv := range []types.Type{t.Type(), types.NewPointer(t.Type())} {
+				sel := c.Prog.MethodSets.MethodSet(recv).Lookup(pkg.Pkg, name)
+				if sel == nil {
+					continue
+				}
+				f := c.Prog.MethodValue(sel)
+				if f == nil || f.Synthetic != "" || f.Pkg != pkg {
+					continue // promoted from the embedded wrapper: the library's answer
+				}
+				for _, ret := range returnsOf(f) {
+					for _, o := range origins(ret.Results[0], sliceOpts{}) {
+						if call, ok := o.V.(*ssa.Call); ok && call.Call.IsInvoke() && call.Call.Method.Name() == name {
+							if _, _, fld, ok := fieldAddr(func() ssa.Value {
+								switch x := call.Call.Value.(type) {
+								case *ssa.UnOp:
+									return x.X
+								case *ssa.Field:
+									return x
+								}
+								return call.Call.Value
+							}()); ok && fld == under {
+								okMethods++
+							}
+						}
+					}
+				}
+				break
+			}
+		}
+		if okMethods >= 2 {
+			return ""
+		}
+		return "the connection handed on is a " + t.Name() + " whose RemoteAddr/LocalAddr are not its own answers from the connection below"
+	}
+	return "the type of the connection handed on was not found in the module"
 }
